@@ -132,6 +132,20 @@ fn probes(thorough: bool) -> Vec<(&'static str, Stmt)> {
     for t in ["", "0", "1", "-1", "+1", "1.5", ".5", "5.", "1e3", "1E-2", "inf", "-inf", "NaN", "nan", "infinity", " 1", "1 ", "0x10", "1_000", "--1", "1.2.3", "\u{e9}", "1e400", "4.9e-324", "00012", "\u{663}", "\u{ff14}\u{ff12}", "\u{b2}", "1\u{663}", "\u{bd}", "-Inf", "INF", "+inf", "-NaN", "1e", "e1", "-", "+", "."] {
         out.push(("S4_to_num", probe(invoke(s(t), "to_num", vec![]))));
     }
+    // S7: failing calls whose error message quotes the text they were given, for every length of that text
+    // from 0 to 300 bytes of ASCII followed by one character of 2, 3 or 4 bytes (a message is built, cut,
+    // padded or copied somewhere: every offset at which a multi-byte character can straddle a limit)
+    for len in 0..=300usize {
+        for tail in ["\u{e9}", "\u{20ac}", "\u{1f600}"] {
+            let text = format!("{}{}", "a".repeat(len), tail);
+            out.push(("S7_long_text_in_error_messages", probe(invoke(s(&text), "to_num", vec![]))));
+            if len % 4 == 0 {
+                out.push(("S7_long_text_in_error_messages", probe(invoke(s("x"), "starts_with", vec![Expr::VecLit(vec![s(&text)])]))));
+                out.push(("S7_long_text_in_error_messages", probe(invoke(var("String"), "from_utf8", vec![Expr::VecLit(vec![s(&text)])]))));
+                out.push(("S7_long_text_in_error_messages", probe(index(s(&text), s(&text)))));
+            }
+        }
+    }
     // S3 sequences
     for n in 0..=4usize {
         let items: Vec<Expr> = (0..n).map(|i| s(&format!("e{}", i))).collect();
@@ -267,6 +281,31 @@ fn probes(thorough: bool) -> Vec<(&'static str, Stmt)> {
     out
 }
 
+
+/// the probe batches as source texts (every `stride`-th batch of the quick bounds): also run by C10 on every
+/// build configuration - indices at and beyond the machine's integer limits are where checked arithmetic and
+/// wrapping arithmetic part ways
+pub fn batch_sources(stride: usize) -> Vec<String> {
+    let all = probes(false);
+    let mut out = Vec::new();
+    let mut cur: Vec<Stmt> = Vec::new();
+    let mut k = 0usize;
+    for (_, p) in all {
+        cur.push(p);
+        if cur.len() == 100 {
+            let batch = std::mem::take(&mut cur);
+            if k % stride == 0 {
+                out.push(print_program(&batch, false));
+            }
+            k += 1;
+        }
+    }
+    if !cur.is_empty() {
+        out.push(print_program(&cur, false));
+    }
+    out
+}
+
 pub fn run(ctx: &Ctx) -> Report {
     let mut report = Report::new();
     let thorough = ctx.thorough();
@@ -309,7 +348,7 @@ pub fn run(ctx: &Ctx) -> Report {
     mcheck::fill_report(
         &mut report,
         &stats,
-        "every probe of: S1 string[i] for every string over a 1/2/3/4-byte alphabet up to 5/6 characters (methods other than index, slice and char_byte_index: up to 3/4 characters) and every integer i in [-len-2, len+2] (every mid-character offset) plus fractional, NaN, +-inf, +-2^53, +-2^63 and non-number indices; S2 every slice b..e over the same integer domain; S3 the same for vecs and tuples of 0-4 elements including item assignment, and for every vec slice that it is a sequence of its own (pushes and item assignments on either side afterwards leave the other alone); S4 every string method with every needle of 1-2 characters and every start, classification of every string of 1-2 characters over 18 characters incl. non-ASCII letters, digits and numerals of several scripts, 40 texts for to_num; S5 from_ascii/from_utf8 over all byte vectors up to length 3/4 from boundary bytes, all lead/continuation boundary sequences, from_code_points over boundary code points; S6 escape forms. 100 probes per program, one printed line each, compared with M-str byte for byte (error class on failure).",
+        "every probe of: S1 string[i] for every string over a 1/2/3/4-byte alphabet up to 5/6 characters (methods other than index, slice and char_byte_index: up to 3/4 characters) and every integer i in [-len-2, len+2] (every mid-character offset) plus fractional, NaN, +-inf, +-2^53, +-2^63 and non-number indices; S2 every slice b..e over the same integer domain; S3 the same for vecs and tuples of 0-4 elements including item assignment, and for every vec slice that it is a sequence of its own (pushes and item assignments on either side afterwards leave the other alone); S4 every string method with every needle of 1-2 characters and every start, classification of every string of 1-2 characters over 18 characters incl. non-ASCII letters, digits and numerals of several scripts, 40 texts for to_num; S5 from_ascii/from_utf8 over all byte vectors up to length 3/4 from boundary bytes, all lead/continuation boundary sequences, from_code_points over boundary code points; S6 escape forms; S7 failing calls whose message quotes the text they were given (to_num, starts_with / from_utf8 / index with a wrong kind of argument), for every length of that text from 0 to 300 bytes of ASCII followed by a character of 2, 3 or 4 bytes. 100 probes per program, one printed line each, compared with M-str byte for byte (error class on failure).",
         json!({"string_chars": if thorough { 6 } else { 5 }, "byte_vector_length": if thorough { 4 } else { 3 }}),
     );
     // the honest counts: probes, not programs
